@@ -296,7 +296,7 @@ class Gen(object):
     def block(self, budget):
         rng = self.rng
         kinds = ['assign', 'string', 'print', 'file', 'gosub', 'ongosub', 'if', 'gotoskip', 'read', 'error',
-                 'locate', 'swapdef', 'random', 'array', 'recordtext', 'recordtext']
+                 'locate', 'swapdef', 'random', 'array', 'recordtext', 'recordtext', 'sound']
         if self.depth < 2 and budget > 0:
             kinds += ['for', 'while', 'for', 'while']
         k = rng.choice(kinds)
@@ -371,6 +371,31 @@ class Gen(object):
         else:
             self.unit('PRINT #5,"scrn";K;')
             self.unit('PRINT #6,"lpt";K;S$')
+
+    def b_sound(self, _):
+        # sound queue states held across the suspension: empty, looping tone, finite notes pending (background),
+        # after foreground music.  Only time-independent observations: pending notes last for minutes, the
+        # queue is cleared first so that it never fills up, foreground music is a few 64th notes
+        rng = self.rng
+        kind = rng.randrange(6)
+        if kind == 0:
+            self.unit('SOUND 440,.01')
+            self.unit('PRINT "loop";PLAY(0)')
+        elif kind == 1:
+            self.unit('SOUND 300,0:PLAY "MBT32L1C.........D.........E........."')
+            self.unit('PRINT "pending";PLAY(0)>0')
+        elif kind == 2:
+            self.unit('SOUND 300,0')
+            self.unit('PRINT "silent";PLAY(0)')
+        elif kind == 3:
+            self.unit('SOUND 300,0:PLAY "MFT255L64CDE"')
+            self.unit('SOUND 523,.01')
+        elif kind == 4:
+            self.unit('SOUND 32767,.01:SOUND 660,.01')
+            self.unit('PLAY "MB"')
+        else:
+            self.unit('SOUND 300,0:PLAY "MBT32L1' + 'C' + '.' * 80 + 'D"')
+            self.unit('PRINT "forever";PLAY(0)>0')
 
     def b_gosub(self, _):
         self.unit('GOSUB %d' % self.rng.choice([8000, 8100, 8200]))
@@ -501,6 +526,15 @@ FIXED = [
      '130 GET 3,C', '140 PRINT #3,"tx";C;', '150 PUT 3,C+4', '160 WEND', '170 FOR I=8 TO 1 STEP -1', '180 GET 3,I',
      '190 B$=INPUT$(6,#3)', '200 PRINT CVI(N$);V$;"/";B$;LOC(3)', '210 NEXT', '220 CLOSE 1:OPEN "SEQ.TXT" FOR INPUT AS 1',
      '230 INPUT #1,A,A$:PRINT A;A$;EOF(1);EOF(2)', '240 CLOSE', '250 PRINT "@@DONE";C', '260 SYSTEM'],
+    ['10 PRINT "silent";PLAY(0)', '20 SOUND 440,.01', '30 X=X+1:PRINT "loop";PLAY(0)', '40 SOUND 880,.01', '50 X=X+1',
+     '60 PLAY "MBT32L1C.........D.........E........."', '70 PRINT "pending";PLAY(0)>0', '80 X=X+1', '90 SOUND 300,0',
+     '100 PRINT "stopped";PLAY(0)', '110 PLAY "MFT255L64CDE"', '120 SOUND 523,.01', '130 X=X+1',
+     '140 PLAY "MBT32L1C' + '.' * 80 + 'D"', '150 PRINT "forever";PLAY(0)>0', '160 X=X+1', '170 SOUND 300,0',
+     '180 PRINT "@@DONE";X', '190 SYSTEM'],
+    ['#syntax=tandy', '10 SOUND ON', '20 SOUND 440,.01,15,0', '30 SOUND 660,.01,10,1', '40 NOISE 4,15,.01',
+     '50 X=X+1:PRINT PLAY(0);PLAY(1);PLAY(2)', '60 SOUND 300,.01,15,2', '70 PRINT "A";X',
+     '80 PLAY "MBT32L1C.........D.........","MBT32L1E.........F........."', '90 PRINT PLAY(0)>0;PLAY(1)>0;PLAY(2)>0',
+     '100 X=X+1', '110 SOUND 300,0', '120 NOISE 5,8,.01', '130 X=X+1', '140 SOUND OFF', '150 PRINT "@@DONE";X', '160 SYSTEM'],
 ]
 
 # programs that stop at their own SYSTEM statements (suspended and resumed every time), with the uninterrupted twin
@@ -520,6 +554,16 @@ FIXED_SYSTEM = [
 ]
 
 
+def session_options(lines):
+    """lines starting with '#' are harness options (e.g. '#syntax=tandy'), not BASIC"""
+    opts = {}
+    for l in lines:
+        if l.startswith('#'):
+            k, _, v = l[1:].partition('=')
+            opts[k] = v
+    return opts
+
+
 class Runner(object):
     """one session with a program loaded, a mount directory and a state directory"""
 
@@ -534,8 +578,10 @@ class Runner(object):
         self.lptdir = tempfile.mkdtemp(prefix='pcbv_c40l_')
         self.session = Session(output_streams=self.sink, input_streams=None, peek_values={}, max_files=8,
                                devices={'C': self.dir, 'LPT1': 'FILE:' + os.path.join(self.lptdir, 'LPT1.OUT')},
-                               current_device='C')
+                               current_device='C', **session_options(lines))
         for l in lines:
+            if l.startswith('#'):
+                continue
             self.session.execute(l.encode('latin-1'))
         self.lines_run = 0
         self.suspensions = 0
@@ -695,6 +741,8 @@ def first_diff(ref, got):
 
 def keyword_at(lines, linenum):
     for l in lines:
+        if l.startswith('#'):
+            continue
         n, _, rest = l.partition(' ')
         if int(n) == linenum:
             m = re.match(r'[A-Z]+\$?', rest.split(':')[0].strip())
@@ -765,6 +813,8 @@ def insert_system(rng, lines, linecount):
     """the same program with a SYSTEM statement at a random statement boundary (before a statement of a body line)"""
     cand = []
     for i, l in enumerate(lines):
+        if l.startswith('#'):
+            continue
         n, _, rest = l.partition(' ')
         if int(n) < 100 and len(lines) > 20:
             continue
